@@ -6,6 +6,15 @@
 // distances are recomputed there from the normal equations with the true
 // (not assumed unit) |dir|^2.  Tolerances are formulas in eps * magnitudes and,
 // for the line-line forms, 1/sin^2 of the angle between the lines.
+//
+// Line pairs: judged for sin >= 1e-3; below that only finiteness and "points
+// lie on their lines".  Exactly parallel pairs (bit-identical / negated stored
+// directions): distanceTo must be the point-line distance; closestPoints must
+// return false ("reported") or, if it returns true, a genuinely closest pair
+// ("handled") - key closestPoints.<T>:parallel_lines_true_but_not_closest.
+//
+// Calibration (thorough tier, pristine tree, 4e7 / 7.2e7 cases per sub-check):
+// worst ratios 0.86..3.6 (line/point), 0.8..3.1 (line/line), bounds 16..32.
 #include "c15_common.h"
 
 using namespace c15;
